@@ -145,8 +145,8 @@ prop(
          "every ordered pair of {set_scripts all / partial / delete, BlockFilters processing, SendBlock completing a batch, SendLastStateProof with a reorg section (fork rollback)} x every write boundary k of A is run; a cell = (A, B, k, B finished while A parked?, lock free at the pause?, serial order matched). Reader clause: one evaluation = one reader experiment: a thread runs one paged query (get_cells asc/desc, get_transactions asc/desc/grouped with and without filter.script, get_cells_capacity) and is parked at a read-side pause point (first / middle / last visited index entry, or right before the tip is read) while a complete writer sequence (growth indexed through the real handlers, whole-network fork switch with index rollback, or both) runs on the main thread; the query evaluated at every storage write of the writer gives the point-in-time states S_0..S_W, the released reader must return one of them and must not panic; a cell = (query, writer, park position, which state the answer equals)",
     sizes=tiers(16, 1, 75, 16, 60, 1200, min_evals=60, min_cells=30),
     technique="runtime schedule control through the before_write / at_read hooks (park / release on channels), serial-outcome comparison, point-in-time-state membership for parked readers, lock probe at the pause point, /proc thread-state deadlock detector",
-    level_text="For every ordered pair of the six state-changing operations (incl. the fork rollback of commit_prove_state) and every internal write boundary of the first, started from a prepared mid-sync state (scripts registered, filter batch due, matched blocks pending with one block outstanding), the outcome equals one of the two serial outcomes and both threads finish; whether the second operation could run while the first was parked (i.e. whether the global lock was held at that boundary) is recorded per cell. Readers: every paged query parked mid-scan (or between the scan and the tip read) across a full growth / fork-rollback writer sequence returned an answer equal to one of the writer's point-in-time states (on the unchanged tree always the state at the call).",
-    level_note="the fork rollback operation forks two blocks below the proved tip while the filter progress is far below it, so it clears the in-memory matched blocks and rewinds the progress but has no index entries to delete (index rollback itself is C04 / C08); the reader experiments pause the reader only at the hooked read points (per visited entry, before the tip read) and let the whole writer sequence run there; a RocksDB iterator is itself a consistent view, so only reads that bypass the snapshot next to the iterator (tip, filter-script lookups) can be told apart - a transaction-record lookup outside the snapshot is behaviourally equivalent because TxHash records are never deleted; schedules inside one RocksDB call are not controlled",
+    level_text="For every ordered pair of the six state-changing operations (incl. the fork rollback of commit_prove_state) and every internal write boundary of the first, started from a prepared mid-sync state (scripts registered, filter batch due, matched blocks pending with one block outstanding), the outcome equals one of the two serial outcomes and both threads finish; whether the second operation could run while the first was parked (i.e. whether the global lock was held at that boundary) is recorded per cell. The pairs are run from two prepared states: mid-sync (six operations) and fully synced (the three set_scripts commands and a fork rollback that deletes index entries and rewinds the filter progress). Randomized runs put three operations on three threads with random pause points, start and release orders and compare with the six serial orders. Readers: every paged query parked mid-scan (or between the scan and the tip read) across a full growth / fork-rollback writer sequence returned an answer equal to one of the writer's point-in-time states (on the unchanged tree always the state at the call).",
+    level_note="in the mid-sync state the fork rollback has no index entries to delete (the filter progress is far below the fork point), in the synced state it has; the grace periods (40-60 ms) that let a started thread reach its pause point only decide which interleaving is explored, never a verdict; the reader experiments pause the reader only at the hooked read points (per visited entry, before the tip read) and let the whole writer sequence run there; a RocksDB iterator is itself a consistent view, so only reads that bypass the snapshot next to the iterator (tip, filter-script lookups) can be told apart - a transaction-record lookup outside the snapshot is behaviourally equivalent because TxHash records are never deleted; schedules inside one RocksDB call are not controlled",
 )
 
 prop(
